@@ -66,8 +66,9 @@ def handlePrevState (env : Env) (met : MetCallResult) (t : Tetraplet) (argHash :
     match errValue.getField "ret_code", errValue.getField "message" with
     | some (.num rc), some (.str msg) =>
       if rc < -2147483648 ∨ rc > 2147483647 then throwE (.uncatchable .malformedCallServiceFailed) else do
+      -- (before the fix: commit in /repo this update also cleared `subgraphComplete`)
       modifyCtx fun c =>
-        let c := ({ c with subgraphComplete := false }).recordCallCid t.peerPk failedCid
+        let c := c.recordCallCid t.peerPk failedCid
         { c with th := c.th.meetCallEnd met.result }
       throwE (.catchable (.localServiceError rc msg))
     | _, _ => throwE (.uncatchable .malformedCallServiceFailed)
